@@ -472,6 +472,9 @@ func main() {
 		{"default-src 'self'; script-src 'self' 'nonce-abc123' https://cdn.example; style-src 'nonce-zzz'", "abc123"},
 		{"script-src 'nonce-first' 'nonce-second'", "first"},
 		{"style-src 'nonce-zzz'; img-src *", ""},
+		// a directive that occurs twice: browsers honour the first occurrence only
+		{"script-src 'nonce-first'; img-src *; script-src 'nonce-second' 'self'", "first"},
+		{"default-src 'none'; script-src 'self' 'nonce-first'; style-src 'nonce-zzz'; script-src 'nonce-second'", "first"},
 	}
 	var configs []config
 	for _, e := range encs {
